@@ -115,7 +115,7 @@ func runCase(seed uint64, known bool) caseOut {
 			break
 		}
 		sh := knownShapes(doc, in, c.keep)
-		for _, fixed := range []string{"K27", "N01", "N05"} { // repaired in /repo: their shapes belong to the default stream
+		for _, fixed := range []string{"K27", "K28", "N01", "N05"} { // repaired in /repo: their shapes belong to the default stream
 			delete(sh, fixed)
 		}
 		if len(sh) == 0 || try >= 40 {
